@@ -12,6 +12,9 @@ pub mod kani {
     pub trait Any { fn from_bytes(b: &[u8]) -> Self; }
     impl Any for bool { fn from_bytes(b: &[u8]) -> Self { b.first().map(|x| *x != 0).unwrap_or(false) } }
     impl Any for u8 { fn from_bytes(b: &[u8]) -> Self { b.first().copied().unwrap_or(0) } }
+    impl Any for i8 { fn from_bytes(b: &[u8]) -> Self { b.first().copied().unwrap_or(0) as i8 } }
+    impl Any for i32 { fn from_bytes(b: &[u8]) -> Self { let mut a = [0u8; 4]; for (i, x) in b.iter().take(4).enumerate() { a[i] = *x; } i32::from_le_bytes(a) } }
+    impl Any for usize { fn from_bytes(b: &[u8]) -> Self { let mut a = [0u8; 8]; for (i, x) in b.iter().take(8).enumerate() { a[i] = *x; } usize::from_le_bytes(a) } }
     impl Any for u16 { fn from_bytes(b: &[u8]) -> Self { let mut a = [0u8; 2]; for (i, x) in b.iter().take(2).enumerate() { a[i] = *x; } u16::from_le_bytes(a) } }
     impl Any for u32 { fn from_bytes(b: &[u8]) -> Self { let mut a = [0u8; 4]; for (i, x) in b.iter().take(4).enumerate() { a[i] = *x; } u32::from_le_bytes(a) } }
     pub fn any<T: Any>() -> T { Q.with(|q| T::from_bytes(&q.borrow_mut().pop_front().unwrap_or_default())) }
